@@ -51,7 +51,12 @@ RULE = ("hierarchies = every C3-valid base assignment over <=4 classes in which 
         "nearest-first / shuffled; fields_dict, fields, has, __match_args__ in rotating order on each ancestor and "
         "on a sibling subclass of the nearest base BEFORE the class under test is looked at; afterwards fields_dict "
         "must agree with fields for every class of the hierarchy, asked leaf-to-root and root-to-leaf); "
-        "history of the class object before the "
+        "ONE decorator object (define() / mutable() / attr.s(...) with the arguments of the class under test) applied "
+        "first to a class with another kind of body (mixed annotated + unannotated field(), unannotated only, "
+        "annotated only, empty) and then to the class under test (64 hand-enumerated define cases first, then sampled); "
+        "field_transformers that build what they return through evolve(metadata=<kept dict / MappingProxyType over "
+        "it>) or Attribute(..., metadata=<kept dict / user Mapping>) and mutate the kept container after class "
+        "creation; history of the class object before the "
         "decoration under test (harness-only; the expected tuple is a function of the body): a decoration "
         "attempt attrs refuses after looking at the body (cache_hash without hashing / frozen with on_setattr"
         " / non-bool hash / cache_hash with init=False) then the valid one on the same class object, a "
@@ -64,7 +69,7 @@ ASSUMPTIONS = [
     "sorted(key=counter) is modelled by a stable insertion sort (proved to sort: C07_counter_sorted)",
     "the user's field_transformer is an input: the model applies the same list function the harness installs",
     "Attribute immutability and metadata/validator/these isolation are observed on the real objects (constant in the model)",
-    "the model is a function of the class body and decorator arguments: histories of the class object (refused earlier decoration, slotted build first, shared body objects) and the order in which the classes of the hierarchy were introspected before the class under test are harness-only variation",
+    "the model is a function of the class body and decorator arguments: histories of the class object (refused earlier decoration, slotted build first, shared body objects, a decorator object already applied to another class), how a transformer builds the Attributes it returns, and the order in which the classes of the hierarchy were introspected before the class under test are harness-only variation",
     "the defining class of a survivor is observed through a metadata tag / marker annotation type placed by the harness",
     "the MRO collector reads each class's own __attrs_attrs__ (post-K07a repair); the legacy collector's and has()'s getattr lookup is modelled as 'first class of base's MRO that has its own tuple'",
 ]
@@ -85,7 +90,7 @@ LEVEL_TEXT = ("Lean theorems for arbitrary tables of base tuples, MROs, hierarch
 
 POOL = ["x", "y", "_z"]
 HISTORIES = ["failed_cache_hash", "failed_frozen_on_setattr", "failed_hash_value", "failed_cache_hash_no_init",
-             "twice_slots_first", "shared"]
+             "twice_slots_first", "shared", "reused_mixed", "reused_unannotated", "reused_annotated", "reused_empty"]
 QUICK_GEN_S = 26
 THOROUGH_GEN_S = 370
 DEFAULT_OPTS = {"hasDefault": False, "init": True, "kwOnly": False, "alias": None, "tag": None}
@@ -604,6 +609,9 @@ def base_cfg(rng, shape_bases, rich):
             # the HISTORY of the class object / its body objects before the decoration under test
             if rng.random() < 0.45:
                 pc["history"] = rng.choice(HISTORIES)
+            pc["define_api"] = rng.choice(["define", "define", "mutable"])
+            # how a field_transformer builds what it returns (with containers it keeps and mutates later)
+            pc["tr_style"] = rng.choice(["plain", "evolve_md", "evolve_md_proxy", "ctor", "ctor_mapping"])
             # the KIND of every user-supplied container
             pc["ck"] = {"md": rng.choice(["dict", "dict", "proxy", "odict", "mapping"]),
                         "val": rng.choice(["none", "none", "list", "tuple", "and", "list_and"]),
@@ -686,6 +694,8 @@ def random_case(rng):
             c = simple_cls(kind, mros[k], k, rng.choice(ordered_subsets(POOL)))
         elif mode == "define_inf" and (leaf or rng.random() < 0.3):
             c, info["body"] = define_inference_cls(rng, mros[k], k)
+            if rng.random() < 0.5:
+                pc["history"] = rng.choice([h for h in HISTORIES if h.startswith("reused")])
         else:
             c = rand_cls(rng, kind, mros[k], k, rich, pc)
         if mode == "transformer" and c["kind"] != "plain" and (leaf or rng.random() < 0.3):
@@ -818,7 +828,36 @@ def gen_cases(tier, rng):
             yield random_case(rng)
 
 
+def reuse_seeds():
+    """decorator objects reused across classes of different body kinds (define's auto_attribs inference must be
+    made afresh for every class)"""
+    T = "T{k}"
+    for hist in ("reused_mixed", "reused_unannotated", "reused_annotated", "reused_empty"):
+        for api in ("define", "mutable"):
+            for body in ("annotated_plain", "annotated_absent", "fields", "mixed"):
+                for with_base in (False, True):
+                    k = 1 if with_base else 0
+                    t = T.replace("{k}", str(k))
+                    if body == "annotated_plain":
+                        items = [{"name": "x", "ann": t, "annSrc": t, "annTag": k, "val": "absent", "opts": dict(DEFAULT_OPTS)},
+                                 {"name": "y", "ann": t, "annSrc": t, "annTag": k, "val": "plain", "opts": dict(DEFAULT_OPTS)}]
+                    elif body == "annotated_absent":
+                        items = [{"name": "y", "ann": t, "annSrc": t, "annTag": k, "val": "absent", "opts": dict(DEFAULT_OPTS)}]
+                    elif body == "fields":
+                        items = [ib_item("y", 1, opts(k)), ib_item("x", 2, opts(k))]
+                    else:
+                        items = [{"name": "y", "ann": t, "annSrc": t, "annTag": k, "val": "plain", "opts": dict(DEFAULT_OPTS)},
+                                 ib_item("x", 1, opts(k))]
+                    leaf = {"kind": "define", "mro": [1, 0] if with_base else [0], "items": items, "these": None,
+                            "autoAttribs": None, "collectByMro": True, "kwOnly": False, "tr": "none"}
+                    classes = ([simple_cls("mro", [0], 0, ["x"])] if with_base else []) + [leaf]
+                    per = [{"lean": True}] * (len(classes) - 1) + [{"lean": True, "slots": False, "history": hist,
+                                                                   "define_api": api}]
+                    yield mk_case(classes, {"bases": [[], [0]] if with_base else [[]], "per": per})
+
+
 def seeds():
+    yield from reuse_seeds()
     # K7 (#428): legacy collection under a diamond
     for leaf_kind in ("legacy", "mro", "define"):
         bases = [[], [0], [0], [1, 2]]
@@ -863,6 +902,7 @@ def dist(case, obs):
         "err": "none" if not o.get("err") else f"{'leaf' if o['err'][0] == len(cs) - 1 else 'base'}:{o['err'][1]}",
         "twins": len(case["twins"]),
         "kw_only_cls": last["kwOnly"],
+        "tr_style_leaf": case["cfg"]["per"][-1].get("tr_style", "plain") if tr != "none" else "-",
         "intro_order": intro_plan(case)[0],
         "these_empty_over_body": last["these"] == [] and bool(last["items"]),
         "tuple_method_field": any(f["name"] in ("count", "index") for f in o.get("fields", [])),
